@@ -445,10 +445,20 @@ class SpecMixin:
             raise Unsupported("too many positional arguments for %s" % c.qualname)
         for n, v in zip(pos, argv):
             bound[n] = v
+        star_kw = False
         for k in node.keywords:
             if k.arg is None:
-                raise Unsupported("**kwargs call")
+                # f(..., **d): d may only feed parameters the contract does not talk about (checked below): every contract
+                # parameter must be bound explicitly at this call (a key of d naming one of those is Python's TypeError)
+                star_kw = True
+                self.ev(k.value, st, ctx)
+                continue
             bound[k.arg] = self.ev_hinted(k.value, c.params.get(k.arg), st, ctx)
+        if star_kw:
+            unbound = [n for n in c.params if n != "self" and n not in bound]
+            if unbound:
+                raise Unsupported("**kwargs at a call of %s could supply the contract parameter(s) %r" % (c.qualname, unbound))
+            self.notes.add("call of %s with **kwargs: every parameter its contract mentions is passed explicitly" % c.qualname)
         for n in names:
             if n not in bound:
                 if n in defaults:
@@ -460,6 +470,8 @@ class SpecMixin:
                     else:
                         raise Unsupported("non-constant default for %s.%s" % (c.qualname, n))
                 elif n == "self":
+                    continue
+                elif star_kw and n not in c.params:
                     continue
                 else:
                     raise Unsupported("missing argument %s for %s" % (n, c.qualname))
